@@ -24,6 +24,19 @@ VERIF_MAIN {
   unsigned long eps = IN(0, EPSMAX);
 #endif
   ukey_t xs[NPTS]; unsigned long ys[NPTS]; i64 X[NPTS], Y[NPTS];
+#ifdef REJECT_MODE
+  /* C20: keys in any order (NPTS == 3): the builder must throw std::logic_error iff a key does not exceed its predecessor */
+  for (int i = 0; i < NPTS; i++) { X[i] = IN(0, XMAX); Y[i] = IN(i ? Y[i - 1] : 0, YMAX); xs[i] = (ukey_t) X[i]; ys[i] = (unsigned long) Y[i]; }
+  {
+    unsigned long acc0 = 0; long seg0[10] = {0};
+    unsigned int rc0 = UNIT(u_pla)(xs, ys, NPTS, eps, &acc0, seg0);
+    OUT(rc0);
+    int bad_order = X[1] <= X[0] || X[2] <= X[1];
+    ASSERT((rc0 == 2) == (bad_order != 0), "C20 add_point throws std::logic_error iff a key does not exceed its predecessor inside the segment");
+    ASSERT(rc0 == 0 || rc0 == 2, "no other exception");
+    VERIF_END;
+  }
+#endif
   for (int i = 0; i < NPTS; i++) {
     X[i] = IN(i ? X[i - 1] + 1 : 0, XMAX - (NPTS - 1 - i));   /* strictly increasing keys */
     Y[i] = IN(i ? Y[i - 1] : 0, YMAX);                    /* non-decreasing ranks, as the driver produces them */
